@@ -2006,8 +2006,12 @@ class Interp:
     _PARTIALS = {}
 
     def _partial_target(self, expr, st: St, fr: DynFrame):
-        """``f(a, b, k=v)`` for a call ``name(b)`` where, on this path, the local ``name``
-        was last bound to ``partial(f, a, k=v)`` and what it captured was not re-bound"""
+        """
+        the call that ``name(b)`` stands for when, on this path, the local ``name`` was last
+        bound to a callable expression and what that captured was not re-bound since:
+        ``partial(f, a, k=v)`` -> ``f(a, b, k=v)``; a bound method / function / the branch
+        taken of ``g if c else h`` -> that expression called with the same arguments
+        """
         name = expr.func.id
         store = position = None
         for position in range(len(st.events) - 1, -1, -1):
@@ -2016,30 +2020,56 @@ class Interp:
                     event.data.get('path') == name and event.data.get('fid') == fr.fid:
                 store = event
                 break
-        if store is None:
+        if store is None or store.data.get('aug') is not None:
             return None
         value = store.data.get('value')
-        if not (isinstance(value, ast.Call) and value.args and not any(
+        while isinstance(value, ast.IfExp):
+            # the branch taken on this path
+            taken = None
+            for event in reversed(st.events[:position]):
+                if event.kind == 'test' and event.node is value.test and \
+                        event.data.get('fid') == fr.fid:
+                    taken = event.data.get('value')
+                    break
+            if taken is None:
+                return None
+            value = value.body if taken else value.orelse
+        func, args, keywords = None, [], []
+        if isinstance(value, ast.Call) and value.args and not any(
                 isinstance(a, ast.Starred) for a in value.args) and all(
-                kw.arg is not None for kw in value.keywords)):
+                kw.arg is not None for kw in value.keywords):
+            binding = self.p.resolve_dotted(fr.fn.module, value.func)
+            if binding and binding[0] == 'ext' and binding[1] == 'functools.partial':
+                func, args, keywords = value.args[0], list(value.args[1:]), \
+                    list(value.keywords)
+        if func is None and isinstance(value, ast.Attribute):
+            base = value
+            while isinstance(base, ast.Attribute):
+                base = base.value
+            is_super = isinstance(base, ast.Call) and isinstance(base.func, ast.Name) and \
+                base.func.id == 'super' and not base.args
+            if isinstance(base, ast.Name) or is_super:
+                func = value
+        if func is None and isinstance(value, ast.Name) and value.id != name:
+            binding = self.p.resolve_dotted(fr.fn.module, value)
+            if binding and binding[0] == 'func':
+                func = value
+        if func is None:
             return None
-        binding = self.p.resolve_dotted(fr.fn.module, value.func)
-        if not binding or binding[0] != 'ext' or binding[1] != 'functools.partial':
-            return None
-        captured = {n.id for part in list(value.args) + [kw.value for kw in value.keywords]
+        captured = {n.id for part in [func] + args + [kw.value for kw in keywords]
                     for n in ast.walk(part) if isinstance(n, ast.Name)}
         for event in st.events[position + 1:]:
             if event.kind == 'store' and event.data.get('local') and \
                     event.data.get('fid') == fr.fid and event.data.get('path') in captured:
                 return None
-        key = (id(expr), id(value))
+        key = (id(expr), id(func))
         found = self._PARTIALS.get(key)
-        if found is None or found[1] is not expr or found[2] is not value:
-            call = ast.Call(func=value.args[0], args=list(value.args[1:]) + list(expr.args),
-                            keywords=list(value.keywords) + list(expr.keywords))
+        if found is None or found[1] is not expr or found[2] is not func:
+            call = ast.Call(func=func, args=args + list(expr.args),
+                            keywords=keywords + list(expr.keywords))
             ast.copy_location(call, expr)
             call.origin_node = expr
-            found = (call, expr, value)
+            found = (call, expr, func)
             self._PARTIALS[key] = found
         return found[0]
 
@@ -2855,8 +2885,84 @@ class Interp:
             return None
         return not positive
 
+    def _stable_attrs(self) -> frozenset:
+        """attribute names that are only ever bound in constructors (program wide): an
+        alias taken of such an attribute keeps naming what the attribute names"""
+        found = self._pure.get(('stable-attrs',))
+        if found is None:
+            rebound = set()
+            for fn in self.p.functions.values():
+                if isinstance(fn.node, ast.Lambda) or fn.name in ('__init__', '__new__'):
+                    continue
+                for node in ast.walk(fn.node):
+                    if isinstance(node, ast.Attribute) and \
+                            isinstance(node.ctx, (ast.Store, ast.Del)):
+                        rebound.add(node.attr)
+            found = ('rebound', frozenset(rebound))
+            self._pure[('stable-attrs',)] = found
+        return found[1]
+
+    def _aliases(self, fn) -> dict:
+        """local name -> attribute chain, for locals bound exactly once in ``fn`` to a
+        chain of constructor-only attributes rooted at a parameter"""
+        key = ('aliases', fn.qn)
+        found = self._pure.get(key)
+        if found is not None:
+            return found[1]
+        table = {}
+        if not isinstance(fn.node, ast.Lambda):
+            rebound = self._stable_attrs()
+            args = fn.node.args
+            params = {a.arg for a in args.posonlyargs + args.args + args.kwonlyargs}
+            stores = {}
+            for node in ast.walk(fn.node):
+                if isinstance(node, ast.Name) and isinstance(node.ctx, (ast.Store, ast.Del)):
+                    stores[node.id] = stores.get(node.id, 0) + 1
+            params -= set(stores)
+
+            def chain(value):
+                names = []
+                while isinstance(value, ast.Attribute):
+                    names.append(value.attr)
+                    value = value.value
+                return bool(names) and isinstance(value, ast.Name) and \
+                    value.id in params and not (set(names) & rebound)
+
+            for node in ast.walk(fn.node):
+                if not isinstance(node, ast.Assign) or len(node.targets) != 1:
+                    continue
+                target, value = node.targets[0], node.value
+                pairs = []
+                if isinstance(target, ast.Name):
+                    pairs = [(target, value)]
+                elif isinstance(target, ast.Tuple) and isinstance(value, ast.Tuple) and \
+                        len(target.elts) == len(value.elts):
+                    pairs = [(t, v) for t, v in zip(target.elts, value.elts)
+                             if isinstance(t, ast.Name)]
+                for t, v in pairs:
+                    if stores.get(t.id) == 1 and chain(v):
+                        table[t.id] = v
+        self._pure[key] = ('table', table)
+        return table
+
+    def _canon_txt(self, expr, fr: DynFrame) -> str:
+        aliases = self._aliases(fr.fn)
+        if not aliases or not any(isinstance(n, ast.Name) and n.id in aliases
+                                  for n in ast.walk(expr)):
+            return _txt(expr)
+        import copy
+
+        class Sub(ast.NodeTransformer):
+            def visit_Name(self, node):
+                if isinstance(node.ctx, ast.Load) and node.id in aliases:
+                    return copy.deepcopy(aliases[node.id])
+                return node
+        return _txt(Sub().visit(copy.deepcopy(expr)))
+
     def atom_key(self, expr, fr: DynFrame):
-        """canonical key of a boolean atom and its polarity"""
+        """canonical key of a boolean atom and its polarity (locals that only alias
+        constructor-only attributes are written as the attribute)"""
+        _txt = lambda e: self._canon_txt(e, fr)  # noqa: E731
         if isinstance(expr, ast.Compare) and len(expr.ops) == 1:
             op = expr.ops[0]
             left, right = expr.left, expr.comparators[0]
